@@ -39,6 +39,7 @@ const (
 	polRandomMissDrop
 )
 
+//go:norace
 func (p *Pool) fix() {
 	if g := zsim.S.Gen; p.gen != g {
 		p.gen = g
@@ -47,6 +48,7 @@ func (p *Pool) fix() {
 	}
 }
 
+//go:norace
 func ident(v any) uintptr {
 	rv := reflect.ValueOf(v)
 	switch rv.Kind() {
@@ -62,6 +64,8 @@ func ident(v any) uintptr {
 }
 
 // region finds the byte buffer owned by a pooled value.
+//
+//go:norace
 func region(v any) []byte {
 	switch x := v.(type) {
 	case []byte:
@@ -81,6 +85,7 @@ func region(v any) []byte {
 	return nil
 }
 
+//go:norace
 func bufField(st reflect.Value) []byte {
 	f := st.FieldByName("buf")
 	if !f.IsValid() || f.Kind() != reflect.Slice || f.Type().Elem().Kind() != reflect.Uint8 {
@@ -93,8 +98,10 @@ func bufField(st reflect.Value) []byte {
 	return b[:cap(b)]
 }
 
+//go:norace
 func poisonByte(i int) byte { return 0xA5 ^ byte(i*7) }
 
+//go:norace
 func (p *Pool) Get() any {
 	if zsim.S == nil {
 		v := p.real.Get()
@@ -138,7 +145,11 @@ func (p *Pool) Get() any {
 		zsim.Probe("pool_non_lifo")
 	}
 	e := p.free[i]
-	p.free = append(p.free[:i:i], p.free[i+1:]...)
+	for k := i; k+1 < len(p.free); k++ {
+		p.free[k] = p.free[k+1]
+	}
+	p.free[len(p.free)-1] = poolEntry{}
+	p.free = p.free[:len(p.free)-1]
 	for k, b := range e.region {
 		if b != poisonByte(k) {
 			zsim.Fail("pool.write_after_put", "a pooled buffer was modified at offset %d while it was free (put by task %d at step %d, taken by task %d)", k, e.putBy, e.putAt, zsim.CurID())
@@ -149,10 +160,11 @@ func (p *Pool) Get() any {
 		zsim.Probe("pool_reuse_other_task")
 	}
 	zsim.Log("pool.Get -> entry put by task %d at step %d", e.putBy, e.putAt)
-	raceAcquire(&p.gen)
+	raceAcquire(poolAddr(p, e.v))
 	return e.v
 }
 
+//go:norace
 func (p *Pool) Put(v any) {
 	if zsim.S == nil {
 		p.real.Put(v)
@@ -184,6 +196,18 @@ func (p *Pool) Put(v any) {
 		zsim.Fault("pool_drop")
 		return
 	}
-	raceRelease(&p.gen)
+	raceRelease(poolAddr(p, v))
 	p.free = append(p.free, poolEntry{v: v, id: id, region: reg, putBy: zsim.CurID(), putAt: s.StepNo()})
+}
+
+// poolAddr is the address the put -> get edge is attached to: the entry itself
+// when it is a pointer (as the real sync.Pool does), the pool otherwise.
+//
+//go:norace
+func poolAddr(p *Pool, v any) any {
+	rv := reflect.ValueOf(v)
+	if rv.Kind() == reflect.Ptr && !rv.IsNil() {
+		return v
+	}
+	return &p.gen
 }
